@@ -334,6 +334,8 @@ def grid(foreign):
         "noop_between": [mail(), rcpt(ok1), L("noop", b"NOOP"), L("vrfy", b"VRFY x"), L("help", b"HELP"), L("unknown", b"XYZZY"), rcpt(ok2), D(), L("quit", b"QUIT"), mail()],
         "rcpt_first": [rcpt(ok1), D(), mail(), D(), rcpt(ok1), D()],
         "failed_data_ends_txn": [mail(), rcpt(ok1), D(), rcpt(ok1), D()],
+        # a recipient list that has to grow many times (28 addresses of ~100 bytes, then short ones), for the allocation failures below
+        "many_rcpts": [mail()] + [rcpt(b"recipient-%02d-" % i + b"x" * 80 + b"@a.example") for i in range(28)] + [rcpt(b"l@a.example"), rcpt(ok1), D(), mail(), rcpt(ok2), D()],
     }
     # the length limit meets the localiphost rule: the literal is replaced by a LONGER (30 bytes) or SHORTER (3 bytes) name, so the address as
     # typed and the address as stored lie on different sides of the limit (added after seeded change C08-E)
@@ -378,6 +380,12 @@ def grid(foreign):
                         out.append({"d": "smtpd", "env": {"RELAYCLIENT": None}, "ctl": dict(ctl0), "db": None, "qq": {"mode": "qq", "exit": 0},
                                     "cmds": seqs[name], "cut": None, "grid": name + "_sysfault",
                                     "sysfault": {"cls": cls, "k": k, "errno": er, "persist": persist}})
+    # the daemon running out of memory (a memory limit set by its supervisor): every allocation of the session failing once. It may give up or
+    # refuse temporarily at any point; whatever it then still accepts is a message with exactly the recipients it answered 250
+    # (added after seeded change C08-L)
+    for k in range(0, 70):
+        out.append({"d": "smtpd", "env": {"RELAYCLIENT": None}, "ctl": dict(ctl0), "db": None, "qq": {"mode": "qq", "exit": 0},
+                    "cmds": seqs["many_rcpts"], "cut": None, "grid": "many_rcpts_sysfault", "sysfault": {"cls": "malloc", "k": k, "errno": 12, "persist": False}})
     return out
 
 
